@@ -114,6 +114,9 @@ package cbor
 
 //@ def nfOfAI(ai byte) int = ai == 24 ? 1 : (ai == 25 ? 2 : (ai == 26 ? 4 : (ai == 27 ? 8 : 0)))
 
+// headArg(a, p): the argument of the CBOR head starting at a[p].
+//@ def headArg(a bytearray, p int) uint64 = nfOfAI(a[p] & 31) == 0 ? uint64(a[p] & 31) : beValue(a, p + 1, nfOfAI(a[p] & 31))
+
 //@ func (*Decoder).ReadByte
 //@   props C12 C10
 //@   returns (b, err)
@@ -165,6 +168,7 @@ package cbor
 //@   ensures err == nil ==> (sdata(d.r)[old(spos(d.r))] & 224) == 0 && (sdata(d.r)[old(spos(d.r))] & 31) < 28
 //@   ensures err == nil ==> spos(d.r) == old(spos(d.r)) + 1 + nfOfAI(sdata(d.r)[old(spos(d.r))] & 31)
 //@   ensures spos(d.r) >= old(spos(d.r)) && spos(d.r) <= send(d.r)
+//@   ensures[value] err == nil ==> n == headArg(sdata(d.r), old(spos(d.r)))
 //@   assigns spos(d.r)
 
 //@ func (*Decoder).DecodeArrayHeader
@@ -175,6 +179,7 @@ package cbor
 //@   ensures err == nil ==> (sdata(d.r)[old(spos(d.r))] & 224) == 128 && (sdata(d.r)[old(spos(d.r))] & 31) < 28
 //@   ensures err == nil ==> spos(d.r) == old(spos(d.r)) + 1 + nfOfAI(sdata(d.r)[old(spos(d.r))] & 31)
 //@   ensures spos(d.r) >= old(spos(d.r)) && spos(d.r) <= send(d.r)
+//@   ensures[value] err == nil ==> n == headArg(sdata(d.r), old(spos(d.r)))
 //@   assigns spos(d.r)
 
 //@ func (*Decoder).DecodeMapHeader
@@ -185,6 +190,7 @@ package cbor
 //@   ensures err == nil ==> (sdata(d.r)[old(spos(d.r))] & 224) == 160 && (sdata(d.r)[old(spos(d.r))] & 31) < 28
 //@   ensures err == nil ==> spos(d.r) == old(spos(d.r)) + 1 + nfOfAI(sdata(d.r)[old(spos(d.r))] & 31)
 //@   ensures spos(d.r) >= old(spos(d.r)) && spos(d.r) <= send(d.r)
+//@   ensures[value] err == nil ==> n == headArg(sdata(d.r), old(spos(d.r)))
 //@   assigns spos(d.r)
 
 // decodeBytesOfType: the declared length n (an untrusted uint64) must be
